@@ -301,6 +301,17 @@ def exImg (refs : List Ref) : RawImage :=
 example : checkImage (exImg [{ kind := .char, off := 1, need := 64 }, { kind := .rule, off := 9, need := 60 }]) = [] := by decide
 example : checkImage (exImg [{ kind := .rule, off := 9, need := 62, via := "next:chars" }]) ≠ [] := by decide
 
+/-- **slot_opcode**: in a consistent image an indicator or emphasis slot (the dump says `expect = 1000 + n` for the
+    slot of opcode `n`) designates a rule of exactly that opcode -/
+theorem slot_opcode (img : RawImage) (h : ImageConsistent img) (r : Ref) (hr : r ∈ img.refs) (he : 1000 ≤ r.expect) :
+    r.opcode + 1000 = r.expect := by
+  have := (h.refsOK r hr).2.2
+  unfold expectOK at this
+  have h1 : (r.expect == 1) = false := by simp; omega
+  have h2 : (r.expect == 2) = false := by simp; omega
+  simp only [h1, h2, Bool.false_eq_true, if_false, ge_iff_le, he, if_true, beq_iff_eq] at this
+  exact this
+
 /-! ## D. the logical table -/
 
 /-- index `i` designates rule `r` of the table -/
